@@ -21,7 +21,7 @@ from __future__ import annotations
 import ast
 import operator
 
-from .model import AnalysisError, Cls, Func, Module
+from .model import AnalysisError, Cls, Func, Module, walk_no_nested
 
 
 class NotModelled(AnalysisError):
@@ -365,14 +365,17 @@ class Interp:
                     raise PyRaise("TypeError", ("missing argument %s for %s" % (p, fn.qualname),), n)
             if isinstance(n, ast.Lambda):
                 return self.eval(n.body, env)
-            for x in ast.walk(n):
-                if isinstance(x, (ast.Yield, ast.YieldFrom)):
-                    raise NotModelled("generator function %s" % fn.qualname)
-                break
+            is_gen = any(isinstance(x, (ast.Yield, ast.YieldFrom)) for x in walk_no_nested(n))
+            if is_gen:
+                # generator functions are evaluated eagerly (no observable laziness in the fragment)
+                env.vars["__yields__"] = []
             try:
                 self.exec_block(n.body, env)
             except _Return as r:
-                return r.v
+                if not is_gen:
+                    return r.v
+            if is_gen:
+                return _Iter(env.vars["__yields__"])
             return None
         finally:
             self.depth -= 1
@@ -429,8 +432,16 @@ class Interp:
                 k = (c.module.relpath, c.name + "." + name)
                 if k in self.global_overrides:
                     return True, self.global_overrides[k]
+                expr = c.attrs[name]
+                if isinstance(expr, ast.Name) and expr.id != name and (expr.id in c.methods or expr.id in c.attrs):
+                    # class-body alias:  get = __iter__
+                    return self._class_lookup(cls, recv, expr.id)
                 if k not in self._constcache:
-                    self._constcache[k] = self.eval(c.attrs[name], self.module_env(c.module))
+                    cenv = Env(c.module, self.module_env(c.module))
+                    for nm in ast.walk(expr):
+                        if isinstance(nm, ast.Name) and nm.id != name and nm.id in c.attrs:
+                            cenv.vars[nm.id] = self._class_lookup(c, None, nm.id)[1]
+                    self._constcache[k] = self.eval(expr, cenv)
                 return True, self._constcache[k]
         return False, None
 
@@ -837,7 +848,7 @@ class Interp:
         f = _BIN.get(type(op))
         if f is None:
             raise NotModelled("binary operator %s" % type(op).__name__)
-        if not (isinstance(a, _SAFE_TYPES + (Pt,)) and isinstance(b, _SAFE_TYPES + (Pt,))):
+        if not (isinstance(a, _SAFE_TYPES + (Pt, PyModel)) and isinstance(b, _SAFE_TYPES + (Pt, PyModel))):
             raise NotModelled("binary operator on %s, %s" % (type(a).__name__, type(b).__name__))
         try:
             return f(a, b)
@@ -996,6 +1007,20 @@ class Interp:
         v = self.eval(e.value, env)
         self.assign(e.target, v, env)
         return v
+
+    def _e_Yield(self, e, env):
+        ok, ys = env.lookup("__yields__")
+        if not ok:
+            raise NotModelled("yield outside a generator function")
+        ys.append(self.eval(e.value, env) if e.value is not None else None)
+        return None
+
+    def _e_YieldFrom(self, e, env):
+        ok, ys = env.lookup("__yields__")
+        if not ok:
+            raise NotModelled("yield outside a generator function")
+        ys.extend(self.iterate(self.eval(e.value, env), e))
+        return None
 
     def _e_Starred(self, e, env):
         raise NotModelled("starred expression")
@@ -1192,6 +1217,7 @@ _BUILTINS = {
     "zip": _Builtin(lambda it, *a: [tuple(r) for r in zip(*[it.iterate(x) for x in a])], "zip"),
     "enumerate": _Builtin(lambda it, x, start=0: list(enumerate(it.iterate(x), start)), "enumerate"),
     "reversed": _Builtin(lambda it, x: list(reversed(it.iterate(x))), "reversed"),
+    "hex": _Builtin(lambda it, x: hex(x) if isinstance(x, int) else "0x<%s>" % (x,), "hex"),
     "abs": _Builtin(lambda it, x: abs(x), "abs"),
     "sum": _Builtin(lambda it, x, start=0: sum(it.iterate(x), start), "sum"),
     "repr": _Builtin(lambda it, x: repr(x), "repr"),
